@@ -592,12 +592,12 @@ pub fn install_panic_hook() {
             "<non-string panic>".to_string()
         };
         let text = format!("{msg} @ {loc}");
-        GLOBAL_PANICS.lock().unwrap().push(text.clone());
+        GLOBAL_PANICS.lock().unwrap().push((std::thread::current().id(), text.clone()));
         LAST_PANIC.with(|p| *p.borrow_mut() = Some(text));
     }));
 }
 
-pub static GLOBAL_PANICS: std::sync::Mutex<Vec<String>> = std::sync::Mutex::new(Vec::new());
+pub static GLOBAL_PANICS: std::sync::Mutex<Vec<(std::thread::ThreadId, String)>> = std::sync::Mutex::new(Vec::new());
 
 /// Run an oracle, turning a panic (in library or harness code) into a failing verdict.
 pub fn guarded<F: FnOnce() -> Verdict>(f: F) -> Verdict {
